@@ -2,14 +2,14 @@
 # sweep.sh <tier> <seed…> — unchanged-tree sweep for false alarms: runs every property's check for each seed
 # and prints one line per run. Meant for `vp run --with-repo -- checklib/sweep.sh quick 2 3 4 5`: works in a
 # snapshot of /verif (builds everything first) and, when $VP_RUN_REPO is set, against that snapshot of /repo
-# (VERIF_REPO_DIR), so seeded changes being tried in /repo do not disturb it.
+# (VERIF_REPO_DIR), so seeded changes being tried in /repo do not disturb it. SWEEP_PROPS="C04 C17" restricts the properties.
 TIER=${1:-quick}; shift
 SEEDS="${*:-1}"
 cd "$(dirname "$0")/.."
 if [ -n "${VP_RUN_REPO:-}" ]; then export VERIF_REPO_DIR=$VP_RUN_REPO; fi
 ./check --setup > sweep_setup.log 2>&1 || { echo "SETUP FAILED"; tail -20 sweep_setup.log; exit 1; }
 for S in $SEEDS; do
-  for P in C01 C02 C03 C04 C05 C06 C07 C08 C09 C10 C11 C12 C13 C14 C15 C16 C17 C18 C19 C20; do
+  for P in ${SWEEP_PROPS:-C01 C02 C03 C04 C05 C06 C07 C08 C09 C10 C11 C12 C13 C14 C15 C16 C17 C18 C19 C20}; do
     T0=$(date +%s)
     VERIF_SEED=$S timeout 14400 ./check $P --tier $TIER > sweep_${P}_${TIER}_$S.log 2>&1; E=$?
     echo "seed=$S $P tier=$TIER exit=$E $(( $(date +%s) - T0 ))s $(grep -E "^\[$P\] $TIER" sweep_${P}_${TIER}_$S.log | cut -c1-120) $(grep -c VIOLATION sweep_${P}_${TIER}_$S.log) violation-lines"
